@@ -74,6 +74,15 @@ RangeWalks ==
   \cup {<< O("AddRange", r[1], r[2], ""), O(op, x, 0, "") >> : x \in {99, 100, 199, 200}, r \in SmallRanges,
                                                                op \in {"Add", "Remove"}}
 
+\* ---- fourth family: bulk adds of every list shape into an empty set, a cleared set, a set holding one of
+\* the list's members, followed by another bulk add or a removal
+ListWalks ==
+  {<< O("AddMany", 0, 0, l) >> : l \in DOMAIN Lists}
+  \cup {<< O("Add", 4096, 0, ""), O("Clear", 0, 0, ""), O("AddMany", 0, 0, l) >> : l \in DOMAIN Lists}
+  \cup {<< O("Add", x, 0, ""), O("AddMany", 0, 0, l) >> : x \in {7, 9, 65535}, l \in DOMAIN Lists}
+  \cup {<< O("AddMany", 0, 0, l), O("AddMany", 0, 0, m) >> : l \in DOMAIN Lists, m \in DOMAIN Lists}
+  \cup {<< O("AddMany", 0, 0, l), O("Remove", x, 0, ""), O("Remove", x, 0, "") >> : l \in DOMAIN Lists, x \in {7, 9, 65535}}
+
 VARIABLES set, hist
 vars == <<set, hist>>
 Init == set = Empty /\ hist = <<>>
@@ -95,7 +104,13 @@ Ranges == /\ hist = <<>>
                /\ set' = ApplySeq(Empty, w)
                /\ hist' = h \o [i \in 1..(Depth + 1 - Len(h)) |-> <<"Optimize", 0, 0, "">>]
                /\ PrintT(<<"WALK", hist'>>)
-Next == (\E o \in Alphabet : Step(o)) \/ Algebra \/ Ranges
+ListsFam == /\ hist = <<>>
+            /\ \E w \in ListWalks :
+                 LET h == AsHist(w) IN
+                 /\ set' = ApplySeq(Empty, w)
+                 /\ hist' = h \o [i \in 1..(Depth + 1 - Len(h)) |-> <<"Codec", 0, 0, "">>]
+                 /\ PrintT(<<"WALK", hist'>>)
+Next == (\E o \in Alphabet : Step(o)) \/ Algebra \/ Ranges \/ ListsFam
 Spec == Init /\ [][Next]_vars
 
 \* invariants of the abstract machine itself
